@@ -52,6 +52,8 @@ def result_props(op, obs):
         exc = obs.get("exc") if isinstance(obs, dict) else None
         # any other exception: a file written by save from a self-contained IR was not accepted
         return set(RELOAD_PROPS.get(exc, {"C01", "C17"}))
+    if op["name"] == "writemsg":
+        return {"C02"}
     if op["name"] == "readmsg":
         exc = obs.get("exc") if isinstance(obs, dict) else None
         return {"C02", "C09"} if exc == "ReferenceIsACopy" else {"C02"}
